@@ -59,15 +59,16 @@ def r3(fx):
     for v in iso.ALL_VERSIONS:
         got = f(mv[v] if v < 1 else v)
         yield ob(f'calc_matrix_size v{v}', got == iso.size_of(v), fn, got=got, want=iso.size_of(v))
-    # _encode uses it for width and height
+    # _encode builds a square matrix of that size (stage trace with recording stand-ins)
+    from .models import trace_encode
     enc = fx.fn('encoder', '_encode')
-    w = [s for s in enc.body if isinstance(s, ast.Assign) and ast.unparse(s.targets[0]) == 'width']
-    wa = single(w, 'assignment of width in _encode')
-    b = pat.need(wa.value, 'calc_matrix_size(H_v)', 'width in _encode')
-    h = single([s for s in enc.body if isinstance(s, ast.Assign) and ast.unparse(s.targets[0]) == 'height'], 'height')
-    yield ob('_encode: width = calc_matrix_size(version), height = width',
-             pat.slot(b['v'], ['version'], 'size argument') and pat.slot(h.value, ['width', 'calc_matrix_size(version)'], 'height'),
-             wa, got=f'{ast.unparse(wa)}; {ast.unparse(h)}', want='width = calc_matrix_size(version); height = width')
+    bad = []
+    for v in (-3, 0, 1, 7, 40):
+        rec, res, info = trace_encode(fx, mv[v] if v < 1 else v, 'L' if v != -3 else None, 'L' if v != -3 else None)
+        mm = [r for r in rec if r[0] == 'make_matrix']
+        if len(mm) != 1 or tuple(mm[0][1]) != (iso.size_of(v), iso.size_of(v)):
+            bad.append((v, [r[1] for r in mm]))
+    yield ob('_encode: the matrix is calc_matrix_size(version) wide and high', not bad, enc, got=bad or 'as required', want='make_matrix(size, size)')
 
 
 def _build(fx, bld, v):
